@@ -226,6 +226,19 @@ def method_aliasing():
         except Exception:
             pass
         if chans != keep: bad.append("Sequencer.play_Composition(channels=%s) changed the caller's list to %s" % (keep, chans))
+    # the instruments of the tracks that were played: name, number and range as before
+    from mingus.containers.instrument import MidiInstrument as _MI
+    for nm_, nr_ in (("Vibraphone", 13), ("Acoustic Grand Piano", 5), ("no such instrument", 40)):
+        seq = sequencer.Sequencer(); comp = Composition()
+        tr = Track(); ins = _MI(); ins.name = nm_; ins.instrument_nr = nr_; tr.instrument = ins
+        tr.add_notes("C", 4); comp.add_track(tr)
+        try:
+            seq.play_Composition(comp, [1], 6000)
+            seq.play_Tracks([tr], [2], 6000)
+        except Exception:
+            pass
+        if (ins.name, ins.instrument_nr) != (nm_, nr_):
+            bad.append("Sequencer.play_Composition / play_Tracks changed the track's instrument from %r to %r" % ((nm_, nr_), (ins.name, ins.instrument_nr)))
     m = [3, 4]; bm = Bar("C", m); m[0] = 7; m.append(1)
     if tuple(bm.meter) != (3, 4) or bm.length != 0.75: bad.append("Bar(key, meter list): the bar follows later changes of the caller's list")
     m2 = [6, 8]; b2 = Bar(); b2.set_meter(m2); m2[1] = 4
@@ -244,7 +257,10 @@ def method_aliasing():
         a.play_Note(Note("C")); c_.play_Note(Note("E"))
         b.reset() if hasattr(b, "reset") else None
         lst = [a, b, c_]; keep = list(lst)
+        keep_data = [bytes(t_.track_data) for t_ in lst]
         mf = midi_file_out.MidiFile(lst) if setter == "ctor" else midi_file_out.MidiFile()
+        if [bytes(t_.track_data) for t_ in lst] != keep_data and setter == "ctor":
+            bad.append("MidiFile(tracks): building the file object changed what the caller's tracks hold")
         if setter == "attr": mf.tracks = lst
         try:
             mf.get_midi_data()
